@@ -409,7 +409,7 @@ func (g *pgen) fieldName(mi int) string {
 	return name
 }
 
-var jsonNameChars = []string{"a", "b", "Z", "0", "_", " ", ".", "-", "é", "k", "$", "中"}
+var jsonNameChars = []string{"a", "b", "Z", "0", "_", " ", ".", "-", "é", "k", "$", "中", "\"", "\\", "\n", "\t", "/", "'"}
 
 func genPSchema(t *simrt.Tape, o pgenOpts) *PSchema {
 	g := &pgen{t: t, o: o, s: &PSchema{}, used: map[int]bool{}, next: 1}
